@@ -271,3 +271,181 @@ func TestC18Reopen(t *testing.T) {
 	st := hx.NewStats("C18", "reopen")
 	hx.RunProp(t, st, genC18, runC18, hx.PropOpts{WriteAhead: true})
 }
+
+// ---- C18 same-server unit: several connections of ONE server open the same image at the same instant ------------
+//
+// The other unit starts a server per open; here the opens share the server (and whatever it caches or coalesces):
+// all clients connect, a barrier releases their OPEN_FILE requests together, then they read the whole image
+// concurrently, in small chunks by absolute offset, each starting at a different place. Every client must see the
+// image a lone client saw before.
+
+type c18SameCase struct {
+	Tree     *hx.Node `json:"tree"`
+	PS3      bool     `json:"ps3"`
+	TitleID  string   `json:"title_id,omitempty"`
+	RootName string   `json:"root_name"`
+	Clients  int      `json:"clients"`
+	Chunk    int      `json:"chunk"`
+	Rounds   int      `json:"rounds"`
+	Critical bool     `json:"critical"`
+}
+
+func genC18Same(t *rapid.T) c18SameCase {
+	base := genC07(t)
+	c := c18SameCase{Tree: base.Tree, PS3: base.PS3, TitleID: base.TitleID, RootName: base.RootName,
+		Clients: rapid.SampledFrom([]int{2, 3, 4, 6, 8}).Draw(t, "clients"), Chunk: rapid.SampledFrom([]int{2048, 4096, 4096, 65536, 1 << 20}).Draw(t, "chunk"),
+		Rounds: rapid.IntRange(1, 3).Draw(t, "rounds"), Critical: rapid.Bool().Draw(t, "critical")}
+	// builds that take a while (hundreds of directories) and a data area worth reading (one file of some MiB)
+	if rapid.IntRange(0, 2).Draw(t, "slow-build") > 0 {
+		many := hx.Dir("MANYDIRS")
+		for i, n := 0, rapid.IntRange(150, 400).Draw(t, "manydirs"); i < n; i++ {
+			many.Children = append(many.Children, hx.Dir(fmt.Sprintf("D%04d", i)))
+		}
+		c.Tree.Children = append(c.Tree.Children, many)
+	}
+	if rapid.IntRange(0, 2).Draw(t, "big-file") > 0 {
+		c.Tree.Children = append(c.Tree.Children, hx.File("BIGDATA.BIN", int64(rapid.IntRange(1, 6).Draw(t, "big-mib"))<<20+int64(rapid.IntRange(0, 4095).Draw(t, "big-tail")), 4242))
+	}
+	return c
+}
+
+func runC18Same(c c18SameCase, st *hx.Stats) error {
+	tree := c.Tree
+	if c.PS3 {
+		tree = withPS3(tree, c.TitleID, nil)
+	}
+	fx, err := newIsoFixtureNamed(tree, c.RootName)
+	if err != nil {
+		return err
+	}
+	defer fx.Close()
+	tg, err := hx.StartInproc(fx.Tmp, hx.InprocOpts{})
+	if err != nil {
+		return err
+	}
+	defer tg.Close()
+	ref, err := fetchImageNet(tg.Addr, fx.Root, c.PS3)
+	if err != nil {
+		return err
+	}
+	if ref == nil {
+		st.Label("image creation returned an error")
+		return nil
+	}
+	prefix := "/***DVD***"
+	if c.PS3 {
+		prefix = "/***PS3***"
+	}
+	refMasked := maskImage(ref, c.PS3)
+	op := "READ_FILE"
+	if c.Critical {
+		op = "READ_CRIT"
+	}
+	for round := 0; round < c.Rounds; round++ {
+		conns := make([]*hx.Conn, c.Clients)
+		for i := range conns {
+			if conns[i], err = hx.Dial(tg.Addr); err != nil {
+				return err
+			}
+			defer conns[i].Close()
+		}
+		start := make(chan struct{})
+		errs := make([]error, c.Clients)
+		var wg sync.WaitGroup
+		for i := range conns {
+			wg.Add(1)
+			go func(i int) {
+				defer wg.Done()
+				conn := conns[i]
+				<-start
+				errs[i] = func() error {
+					if err := conn.Send(hx.Req{Op: "OPEN_FILE", Path: hx.BStr(prefix + fx.Root)}.Encode()); err != nil {
+						return err
+					}
+					rep, closed, err := conn.ReadN(16)
+					if err != nil {
+						return err
+					}
+					if closed {
+						return hx.Failf("reply-layout", "client %d: OPEN_FILE of the image ended the connection", i)
+					}
+					var size int64
+					for _, b := range rep[:8] {
+						size = size<<8 | int64(b)
+					}
+					if size != int64(len(ref)) {
+						return hx.Failf("same-size", "client %d of %d opening together: announced size %d, a lone client saw %d", i, c.Clients, size, len(ref))
+					}
+					nchunks := (len(ref) + c.Chunk - 1) / c.Chunk
+					for k := 0; k < nchunks; k++ {
+						j := (k + i*nchunks/c.Clients) % nchunks // every client starts somewhere else
+						off := j * c.Chunk
+						n := min(c.Chunk, len(ref)-off)
+						if err := conn.Send(hx.Req{Op: op, N: uint32(n), Off: uint64(off)}.Encode()); err != nil {
+							return hx.Failf("transport", "client %d: send: %v", i, err)
+						}
+						if !c.Critical {
+							h, closed, err := conn.ReadN(4)
+							if err != nil {
+								return err
+							}
+							if closed || int(h[0])<<24|int(h[1])<<16|int(h[2])<<8|int(h[3]) != n {
+								return hx.Failf("read-bytes", "client %d of %d: READ_FILE(n=%d, off=%d) of the image announced %x (closed=%v)", i, c.Clients, n, off, h, closed)
+							}
+						}
+						b, closed, err := conn.ReadN(n)
+						if err != nil {
+							return err
+						}
+						if closed {
+							return hx.Failf("read-bytes", "client %d of %d: read of image [%d,+%d) ended the connection after %d bytes", i, c.Clients, off, n, len(b))
+						}
+						got := b
+						if off < 18*2048 {
+							// the chunk overlaps the fields that may vary: compare masked
+							tmp := append(append([]byte(nil), ref[:off]...), b...)
+							tmp = append(tmp, ref[off+n:]...)
+							got = maskImage(tmp, c.PS3)[off : off+n]
+						}
+						if !bytes.Equal(got, refMasked[off:off+n]) {
+							d := 0
+							for d < n && got[d] == refMasked[off+d] {
+								d++
+							}
+							return hx.Failf("same-layout", "client %d of %d opening and reading together (chunk %d): bytes at image offset %d differ from what a lone client saw", i, c.Clients, c.Chunk, off+d)
+						}
+					}
+					return nil
+				}()
+			}(i)
+		}
+		close(start)
+		wg.Wait()
+		for _, e := range errs {
+			if e != nil {
+				return e
+			}
+		}
+		for _, cn := range conns {
+			cn.Close()
+		}
+	}
+	files, dirs, _, _, _, _ := treeStats(c.Tree)
+	st.Label(fmt.Sprintf("clients=%d", c.Clients), fmt.Sprintf("chunk=%d", c.Chunk), fmt.Sprintf("ps3=%v", c.PS3))
+	if dirs >= 100 {
+		st.Label("build takes milliseconds (>= 100 directories)")
+	}
+	if len(ref) >= 1<<20 {
+		st.Label("image >= 1 MiB")
+	}
+	if files >= 1 && len(ref) > 64*1024 {
+		st.NT(fmt.Sprintf("%d|%d|%v|%v|%s", c.Clients, c.Chunk, c.PS3, c.Critical, treeKey(c.Tree)))
+	}
+	st.Sample(map[string]any{"clients": c.Clients, "chunk": c.Chunk, "rounds": c.Rounds, "image_bytes": len(ref), "dirs": dirs, "files": files, "critical": c.Critical})
+	return nil
+}
+
+func TestC18SameServer(t *testing.T) {
+	st := hx.NewStats("C18", "same-server")
+	hx.RunProp(t, st, genC18Same, runC18Same, hx.PropOpts{WriteAhead: true})
+}
